@@ -58,3 +58,40 @@ def envFor (rules : List Rule) (executed : List (String × List (List Char × Li
   hits.getLast?
 
 end NextestModel.Scripts
+
+/-! ## `run_setup_scripts` (runner/executor.rs): the loop that runs the enabled scripts, one by one, before the test stream is built -/
+namespace NextestModel.Scripts
+
+/-- the environment of the loop: does the dispatcher acknowledge script `i`'s start, and what does the script produce
+    (`true` = success with a well-formed env file, i.e. `status.env_map.is_some()`) -/
+structure LoopEnv where
+  ack : Nat → Bool
+  ok : Nat → Bool
+
+inductive SEv where
+  | started (i : Nat)      -- SetupScriptStarted sent (handshake)
+  | spawn (i : Nat)        -- the script's process runs
+  | finished (i : Nat)     -- SetupScriptFinished sent
+  deriving DecidableEq, Repr
+
+/-- scripts `i, i+1, …, i+n-1`: events, and the indices whose variables are recorded (`setup_script_data.add_script`) -/
+def runFrom (env : LoopEnv) : Nat → Nat → List SEv × List Nat
+  | _, 0 => ([], [])
+  | i, n + 1 =>
+    let (evs, data) := runFrom env (i + 1) n
+    if env.ack i then
+      ([.started i, .spawn i, .finished i] ++ evs, if env.ok i then i :: data else data)
+    else
+      -- the start was refused (the run is being cancelled): nothing is spawned; the loop goes on to the next script,
+      -- whose start is refused too
+      (.started i :: evs, data)
+
+/-- `run_setup_scripts` over `total` enabled scripts (definition order) -/
+def runScripts (env : LoopEnv) (total : Nat) : List SEv × List Nat := runFrom env 0 total
+
+def scriptSpawns : List SEv → List Nat
+  | [] => []
+  | .spawn i :: es => i :: scriptSpawns es
+  | _ :: es => scriptSpawns es
+
+end NextestModel.Scripts
